@@ -724,7 +724,7 @@ fn check_encode_der(bits: u32, x: &BigUint, out: &mut RunOut) -> Option<Vec<u8>>
     out.state(format!("enc|der|w{}|{}", bits, value_class(bits, x)));
     // the same value as a context-specific field and inside a SEQUENCE of three: the containers of the `der` crate
     // call value_len / encode_value of the integer with their own headers around it
-    if let Some(Ok((imp, exp, seq))) = der_encode_containers(bits, x) {
+    if let Some(Ok((imp, exp, seq, bare))) = der_encode_containers(bits, x) {
         let content = codec::der_int_content(x);
         let mut want_imp = vec![0x81u8];
         want_imp.extend(codec::der_len(content.len()));
@@ -738,7 +738,7 @@ fn check_encode_der(bits: u32, x: &BigUint, out: &mut RunOut) -> Option<Vec<u8>>
         let mut want_seq = vec![0x30u8];
         want_seq.extend(codec::der_len(body.len()));
         want_seq.extend(&body);
-        for (name, got, want) in [("[1] IMPLICIT", imp, want_imp), ("[1] EXPLICIT", exp, want_exp), ("SEQUENCE of 3", seq, want_seq)] {
+        for (name, got, want) in [("[1] IMPLICIT", imp, want_imp), ("[1] EXPLICIT", exp, want_exp), ("SEQUENCE of 3", seq, want_seq), ("encode_value alone", bare, content.clone())] {
             out.ev(&format!("enc/der-container/{}/{}", name, bits));
             match got {
                 Ok(g) if g == want => {}
@@ -753,7 +753,7 @@ fn check_encode_der(bits: u32, x: &BigUint, out: &mut RunOut) -> Option<Vec<u8>>
     Some(obs.written)
 }
 
-type Enc3 = (Result<Vec<u8>, String>, Result<Vec<u8>, String>, Result<Vec<u8>, String>);
+type Enc3 = (Result<Vec<u8>, String>, Result<Vec<u8>, String>, Result<Vec<u8>, String>, Result<Vec<u8>, String>);
 
 /// `[1] IMPLICIT x`, `[1] EXPLICIT x` and `SEQUENCE { x, 5, x }` through the `der` crate's own containers.
 fn der_encode_containers(bits: u32, x: &BigUint) -> Option<Result<Enc3, PanicInfo>> {
@@ -774,7 +774,13 @@ fn der_encode_containers(bits: u32, x: &BigUint) -> Option<Result<Enc3, PanicInf
                     Err(e) => Err(e.to_string()),
                 }
             };
-            (imp, exp, seq)
+            // the value octets alone, as a container of the caller's own would ask for them
+            let bare = {
+                use der::EncodeValue;
+                let mut w = SimDerWriter::new(usize::MAX / 2);
+                v.encode_value(&mut w).map(|_| w.buf).map_err(|e| e.to_string())
+            };
+            (imp, exp, seq, bare)
         });
         match g {
             Guarded::Done(t) => Some(Ok(t)),
